@@ -191,7 +191,7 @@ Lemma good_str_D2 s :
   good_str DELIM2 s = true <-> (find_sub DELIM2 s = None /\ last s 0%N <> QUOTE).
 Proof.
   split.
-  - intros H. split; [exact (good_str_none DELIM2 isq_D2 s H)|].
+  - intros H. split; [exact (good_str_none DELIM2 isq_D2 [] eq_refl s H)|].
     intros Hl. destruct s as [|c s'] using rev_ind; [cbn in Hl; discriminate|].
     rewrite last_last in Hl. subst c.
     unfold good_str in H. rewrite <- app_assoc in H.
@@ -206,7 +206,8 @@ Proof.
       cbn [app]. rewrite find_sub_cons.
       assert (Ep2 : prefixb DELIM2 (c :: s ++ DELIM2) = false).
       { destruct s as [|c2 s2].
-        - cbn [last] in Hl. cbn. destruct (N.eqb_spec 34 c) as [<-|_]; [now elim Hl | reflexivity].
+        - cbn [last] in Hl. unfold DELIM2. cbn [app prefixb].
+          destruct (N.eqb_spec 34 c) as [E|_]; [elim Hl; now rewrite <- E | reflexivity].
         - cbn [app prefixb] in Ep |- *. exact Ep. }
       rewrite Ep2. destruct s as [|c2 s2]; [reflexivity|].
       rewrite IH; [reflexivity | exact Hn' | exact Hl]. }
